@@ -11,6 +11,8 @@ import (
 	"sort"
 	"strings"
 	"time"
+
+	"golang.org/x/tools/go/ssa"
 )
 
 type Obligation struct {
@@ -101,6 +103,40 @@ func (c *Ctx) Anchor(rule, anchor string) {
 		}
 	}
 	r.Anchors = append(r.Anchors, anchor)
+}
+
+// AnchorUp records the anchor construct fn+suffix and, when fn is an unexported helper, the
+// same construct for every function it is reached from through unexported helpers: call sites
+// that a refactoring gathered into one shared helper (ownedAllocation(req, user)) keep counting
+// once per function that reaches them, as they did when each function had its own copy.
+func (c *Ctx) AnchorUp(rule string, fn *ssa.Function, suffix string) {
+	c.Anchor(rule, fname(fn)+suffix)
+	for _, up := range c.W.helperCallers(fn, 4) {
+		c.Anchor(rule, fname(up)+suffix)
+	}
+}
+
+// helperCallers: the functions fn is statically called from, through unexported named helpers.
+func (w *World) helperCallers(fn *ssa.Function, depth int) []*ssa.Function {
+	var out []*ssa.Function
+	seen := map[*ssa.Function]bool{fn: true}
+	var up func(f *ssa.Function, d int)
+	up = func(f *ssa.Function, d int) {
+		if d <= 0 || f.Parent() != nil || f.Object() == nil || f.Object().Exported() {
+			return
+		}
+		for _, cs := range w.callsTo(f) {
+			g := cs.Parent()
+			if g == nil || g.Synthetic != "" || seen[g] {
+				continue
+			}
+			seen[g] = true
+			out = append(out, g)
+			up(g, d-1)
+		}
+	}
+	up(fn, depth)
+	return out
 }
 
 // checkFloors turns a rule whose anchor constructs fell below the floor into a violation.
